@@ -539,12 +539,16 @@ impl Table {
     /// Simulate `secs` of silence: every time stamp of every row (or of one row) moves back.
     pub fn shift_back(&self, secs: f64, only: Option<u32>) {
         let d = Duration::microseconds((secs * 1e6) as i64);
-        self.with_write(|m| {
-            for (k, p) in m.iter_mut() {
-                if only.is_some_and(|o| o != *k) {
-                    continue;
+        self.with_write(|m| match only {
+            Some(a) => {
+                if let Some(p) = m.get_mut(&a) {
+                    shift_plane(p, d);
                 }
-                shift_plane(p, d);
+            }
+            None => {
+                for p in m.values_mut() {
+                    shift_plane(p, d);
+                }
             }
         });
     }
